@@ -1,19 +1,31 @@
 (** C04 -- session state machine: fid binding, open state and mode checks.
-    Statements only; proofs in Server/SpecProofs.v (the specification), Server/FaultProofs.v and
-    Server/NameProofs.v (the model), Server/SummaryProofs.v (the source).
+    Statements only; proofs in Server/SpecProofs.v (the specification), Server/Ledger.v (the
+    reference ledger), Server/Refine.v and Server/FaultProofs.v (model against specification),
+    Server/TableFrame.v, Server/SummaryProofs.v (the source).
 
     The specification [spec_step] (Server/SessionSpec.v) shares its refusal table ([guards_of],
     [names_of], [fid1_of], [fid2_of] in Server/Msg.v) with the model, which interprets the same
-    table in [guarded] (Server/Handlers.v); the table is compared with the Go source on every run
-    ([C04_source_matches_model]).  What is proved of model-vs-specification: the refusal classes
-    that need no reference-count reasoning (below, [C04_model_*]).  NOT proved here and therefore
-    named _partial: the full refinement [abs (step s) = spec_step (abs s)] for guard refusals of
-    bound fids and for the success branches -- it needs C05's reference ledger (a bound fid holds a
-    reference, so the deferred DecRef after a refusal cannot reach Close); those branches are
-    covered by the differential (Server/Cases.v [c04_step]) on every run. *)
-From Coq Require Import NArith List String Bool.
+    table in [guarded] (Server/Handlers.v); the table is compared with the Go source on every run.
+
+    PROVED, all states / requests / tapes, and lifted to every history from NewServer:
+      - the invariant [Ledger]: refs r >= #fid-table entries of r + #live fidRefs whose parent or
+        xattrOf is r; hence a bound fid's fidRef holds a reference ([C04_bound_fid_holds_reference]);
+      - every refusal of the specification -- unsafe name, unbound first or second fid, EVERY guard
+        (on bound fids), Tauth, auth-fid attach, unhandled type -- is an exact no-op of the model with
+        that errno: same state, no backend call, tape untouched ([C04_refines_refusals]);
+      - the fid table changes only at the fids the request names ([C04_other_fids_untouched]).
+    NOT PROVED (hence [C04_refines_partial]): for requests that pass the refusal table, that the
+    bindings of the fids the request names change exactly as [post_ok]/[post_fail] say (Twalk,
+    Twalkgetattr, Tattach, Txattrwalk, Tlcreate bind; Tlopen, Txattrcreate, Twrite update; Tclunk,
+    Tremove unbind) and that no other fid's view changes except by fencing.  These branches are
+    checked by the differential on every run (Server/Cases.v [c04_step], [step_agrees]).
+    The history lift excludes histories in which a rename was cut short by a panic
+    ([no_broken_rename]): renameChildTo drops the old parent's reference before re-parenting the
+    moved fidRef, so a panic in that DecRef's Close really breaks the ledger (observation, not a
+    property of C04). *)
+From Coq Require Import NArith ZArith List String Bool.
 From P9V Require Import Base.Str gen.ConstGen gen.HandlerGen Server.State Server.Msg Server.SessionSpec Server.Handlers
-  Server.Summaries Server.NameProofs Server.SummaryProofs Server.SpecProofs Server.FaultProofs.
+  Server.Summaries Server.NameProofs Server.SummaryProofs Server.SpecProofs Server.FaultProofs Server.Ledger Server.Refine Server.TableFrame.
 Import ListNotations.
 Open Scope N_scope.
 
@@ -145,17 +157,70 @@ Theorem C04_model_no_auth : forall s c tape,
   (forall f afid un an uid, afid <> p9_noFID -> step s c (Tattach f afid un an uid) tape = (s, RErr linux_EINVAL, [], tape)).
 Proof. intros; split; intros; [apply auth_enosys|apply attach_authfid; auto]. Qed.
 
-(** refinement, the part proved: whenever the specification refuses for an unsafe name, an unbound
-    first fid, Tauth or an auth-fid attach, the model gives that reply class and keeps its state *)
-Theorem C04_refines_partial : forall s c m tape e,
-  spec_reject (abs_state s) c m = Some e ->
-  (match m with Tauth _ _ _ _ | Tother _ => True | Tattach _ afid _ _ _ => afid <> p9_noFID
-              | Tclunk f => True
-              | _ => exists k, kind_of m = Some k /\
-                               (forallb safe_nameb (names_of m) = false \/ tlookup (c, fid1_of m) (st_fids s) = None)
-   end) ->
+(** ---- the invariant ---- *)
+Theorem C04_inv_init : Ledger init_state.
+Proof. exact ledger_init. Qed.
+Theorem C04_inv_step : forall s c m tape,
+  Ledger s -> (is_rename m = true -> snd (fst (fst (step s c m tape))) <> RErr linux_EFAULT) ->
+  Ledger (fst (fst (fst (step s c m tape)))).
+Proof. exact ledger_step. Qed.
+Print Assumptions C04_inv_step.
+Theorem C04_inv_every_history : forall h, no_broken_rename init_state h -> Ledger (Refine.run init_state h).
+Proof. exact ledger_every_history. Qed.
+Theorem C04_bound_fid_holds_reference : forall s k r,
+  Ledger s -> tlookup k (st_fids s) = Some r -> Z.le 1 (refsZ s r).
+Proof. exact ledger_bound_pos. Qed.
+
+(** ---- refinement: every refusal, on unbound AND bound fids, every guard ---- *)
+Theorem C04_refines_refusals : forall s c m tape e,
+  Ledger s -> spec_reject (abs_state s) c m = Some e ->
+  (forall f, m = Tremove f -> tlookup (c, f) (st_fids s) = None) ->
   step s c m tape = (s, RErr e, [], tape).
-Proof. exact refines_rejections. Qed.
+Proof. exact refines_refusals. Qed.
+Print Assumptions C04_refines_refusals.
+
+(** in the words of the specification: reply class and bindings are [spec_step]'s, whatever the
+    backend outcome and fence handed to it *)
+Theorem C04_refines_refusals_spec : forall s c m tape e o fence,
+  Ledger s -> spec_reject (abs_state s) c m = Some e ->
+  (forall f, m = Tremove f -> tlookup (c, f) (st_fids s) = None) ->
+  let r := step s c m tape in
+  rclass (snd (fst (fst r))) = snd (spec_step (abs_state s) c m o fence) /\
+  (forall c' f', a_fids (abs_state (fst (fst (fst r)))) c' f' = a_fids (fst (spec_step (abs_state s) c m o fence)) c' f').
+Proof. exact refines_refusals_spec. Qed.
+
+(** for every history (induction over the request list, all tapes) *)
+Theorem C04_refusals_every_history : forall h c m tape e,
+  no_broken_rename init_state h ->
+  let s := Refine.run init_state h in
+  spec_reject (abs_state s) c m = Some e ->
+  (forall f, m = Tremove f -> tlookup (c, f) (st_fids s) = None) ->
+  step s c m tape = (s, RErr e, [], tape).
+Proof. exact refusals_every_history. Qed.
+Print Assumptions C04_refusals_every_history.
+
+(** the fid table changes only at the fids the request may bind or unbind, whatever the backend does *)
+Theorem C04_other_fids_untouched : forall s c m tape c' f',
+  touches c m (c', f') = false ->
+  tlookup (c', f') (st_fids (fst (fst (fst (step s c m tape))))) = tlookup (c', f') (st_fids s).
+Proof. exact other_fids_untouched. Qed.
+Print Assumptions C04_other_fids_untouched.
+
+(** what is proved of [abs (step s) = spec_step (abs s)]: the refusal half exactly, and of the other
+    half the table frame; missing: the exact binding effects of the requests that pass the table
+    (see the header) *)
+Theorem C04_refines_partial : forall s c m tape,
+  Ledger s ->
+  (forall e, spec_reject (abs_state s) c m = Some e ->
+             (forall f, m = Tremove f -> tlookup (c, f) (st_fids s) = None) ->
+             step s c m tape = (s, RErr e, [], tape)) /\
+  (forall c' f', touches c m (c', f') = false ->
+                 tlookup (c', f') (st_fids (fst (fst (fst (step s c m tape))))) = tlookup (c', f') (st_fids s)).
+Proof.
+  intros s c m tape HL. split.
+  - intros e Hr Hrm. apply refines_refusals; assumption.
+  - intros c' f' HT. apply other_fids_untouched; assumption.
+Qed.
 Print Assumptions C04_refines_partial.
 
 (** ---- the source ---- *)
@@ -178,7 +243,7 @@ Example C04_example :
              (0, Tlcreate None 1 "f2" 2 420 0, [AVal (mkV [7] false 0 0 []) []]);
              (0, Tunlinkat 0 "d1" 0, [ok]);
              (0, Tclunk 3, []) ] in
-  let s := run init_state h in
+  let s := NameProofs.run init_state h in
   map (fun f => match tlookup (0, f) (st_fids s) with
                 | Some r => let v := view_of s r in Some (v_opened v, v_deleted v, v_root v, v_xop v)
                 | None => None end) [0; 1; 2; 3; 4]
